@@ -39,13 +39,12 @@ Local Open Scope N_scope.
 
 Definition bytes := list N.
 
-Definition bytes_eqb (a b : bytes) : bool :=
-  (fix go (a b : bytes) : bool :=
-     match a, b with
-     | [], [] => true
-     | x :: a', y :: b' => if x =? y then go a' b' else false
-     | _, _ => false
-     end) a b.
+Fixpoint bytes_eqb (a b : bytes) : bool :=
+  match a, b with
+  | [], [] => true
+  | x :: a', y :: b' => if x =? y then bytes_eqb a' b' else false
+  | _, _ => false
+  end.
 
 Fixpoint mem_bytes (x : bytes) (l : list bytes) : bool :=
   match l with
